@@ -6,6 +6,8 @@ To configure and use your own, see https://code.pobblelabs.org/fossil/nostr_rela
 import asyncio
 from time import time
 
+from aionostr.event import Event
+
 from nostr_relay.errors import StorageError
 from nostr_relay.util import object_from_path
 
@@ -18,11 +20,46 @@ def is_not_too_large(event, config):
         raise StorageError("invalid: 280 characters should be enough for anybody")
 
 
+def _is_lower_hex(value, length):
+    return (
+        isinstance(value, str)
+        and len(value) == length
+        and all(c in "0123456789abcdef" for c in value)
+    )
+
+
+def is_canonical(event):
+    """
+    The event's fields have their NIP-01 types and encodings, and
+    its id is the hash of its own fields
+    """
+    if not (
+        isinstance(event.created_at, int)
+        and not isinstance(event.created_at, bool)
+        and isinstance(event.kind, int)
+        and isinstance(event.content, str)
+        and _is_lower_hex(event.pubkey, 64)
+        and _is_lower_hex(event.sig, 128)
+        and isinstance(event.tags, (list, tuple))
+    ):
+        return False
+    for tag in event.tags:
+        if not (isinstance(tag, (list, tuple)) and len(tag) > 0):
+            return False
+        for item in tag:
+            # strings, or plain integers (which serialize unambiguously)
+            if not isinstance(item, (str, int)) or isinstance(item, bool):
+                return False
+    return event.id == Event.compute_id(
+        event.pubkey, event.created_at, event.kind, event.tags, event.content
+    )
+
+
 def is_signed(event, config):
     """
     Ensure the event is correctly formatted and signed
     """
-    if not event.verify():
+    if not (is_canonical(event) and event.verify()):
         raise StorageError("invalid: Bad signature")
 
 
